@@ -711,6 +711,17 @@ func init() {
 				decProtoGen(f, depth, false, func(d *decProtoCase) { g.Emit(&c14Case{Model: "decproto", Dec: d}) })
 				decProtoGen(f, diskDepth, true, func(d *decProtoCase) { g.Emit(&c14Case{Model: "decproto", Dec: d}) })
 			}
+			if !g.Thorough() {
+				// quick tier: one step deeper below the two-event prefixes that first take a recovery file away and then damage
+				// a data file (the histories in which recovery data arrives LATER than the first, refused Repair)
+				for _, f := range []string{"p2", "p1"} {
+					for _, ev := range []int{dpDelA, dpDelB, dpChangeA} {
+						for x := 0; x < dpNOps; x++ {
+							g.Emit(&c14Case{Model: "decproto", Dec: &decProtoCase{Fmt: f, Prefix: []int{dpDelVol0, ev, x}, Depth: depth + 1}})
+						}
+					}
+				}
+			}
 			if g.Thorough() {
 				g.Emit(&c14Case{Model: "p1full-disk"})
 				g.Emit(&c14Case{Model: "p1vol99-disk"})
